@@ -2,6 +2,7 @@ package main
 
 import (
 	"errors"
+	"flag"
 	"fmt"
 	"io"
 	"io/fs"
@@ -44,8 +45,33 @@ var e19 *env19
 //vp:model flag.Parse
 func m_flagParse() {}
 
+// Flags are set by their command-line NAME (flag.Set; byte-string flags through the registry below),
+// never through the tool's variables: renaming a variable is none of the property's business.
+var bytesFlags map[string]*[]byte // filled while the tool's package-level variables are initialised
+
 //vp:model github.com/google/go-sev-guest/tools/lib/cmdline.Bytes
-func m_cmdlineBytes(name string, byteSize int, in *string) *[]byte { return new([]byte) }
+func m_cmdlineBytes(name string, byteSize int, in *string) *[]byte {
+	p := new([]byte)
+	if bytesFlags == nil {
+		bytesFlags = map[string]*[]byte{}
+	}
+	bytesFlags[name] = p
+	return p
+}
+
+func setFlag(name, value string) {
+	if err := flag.Set(name, value); err != nil {
+		vp.Assert("the-tool-defines-flag-"+name, false)
+	}
+}
+
+func setBytesFlag(name string, value []byte) {
+	p, ok := bytesFlags[name]
+	vp.Assert("the-tool-defines-flag"+name, ok)
+	if ok {
+		*p = value
+	}
+}
 
 //vp:model github.com/google/go-sev-guest/tools/lib/cmdline.Parse
 func m_cmdlineParse(inform string) {}
@@ -352,12 +378,17 @@ func h19b(focus int) {
 	e19.cfg = cfg
 	// flags
 	if in.configPresent {
-		*configProto = "/cfg/config.binarypb"
+		setFlag("config", "/cfg/config.binarypb")
 	}
-	*infile = "/in/quote.dat"
-	*checkcrl, *getcollateral, *minqesvn, *rtmrs, *cabundles = in.fCheckCrl, in.fColl, in.fMinQe, in.fRtmrs, in.fBundles
-	*qevendorid, *mrseam = in.fVendor, in.fMrSeam
-	*quiet = true
+	setFlag("in", "/in/quote.dat")
+	setFlag("check_crl", in.fCheckCrl)
+	setFlag("get_collateral", in.fColl)
+	setFlag("minimum_qe_svn", in.fMinQe)
+	setFlag("rtmrs", in.fRtmrs)
+	setFlag("trusted_roots", in.fBundles)
+	setBytesFlag("-qe_vendor_id", in.fVendor)
+	setBytesFlag("-mr_seam", in.fMrSeam)
+	setFlag("quiet", "true")
 	main()
 	checkExit(0)
 }
